@@ -24,6 +24,13 @@ func init() {
 	ops["body"] = func(a []string) string { // body code reasonhex
 		c, _ := strconv.Atoi(a[0])
 		r := string(unhx(a[1]))
+		// an earlier body for the same code and reason, which its owner has since changed (masked in place for
+		// sending, say): every body is the caller's own
+		if b0 := ws.NewCloseFrameBody(ws.StatusCode(c), r); len(b0) > 0 {
+			for i := range b0 {
+				b0[i] ^= 0xa5
+			}
+		}
 		b := ws.NewCloseFrameBody(ws.StatusCode(c), r)
 		c1, r1 := ws.ParseCloseFrameData(b)
 		c2, r2 := ws.ParseCloseFrameDataUnsafe(b)
